@@ -1,10 +1,10 @@
 import Carquet.Util
 import Driver.Ops.Alloc
 import Driver.Ops.Bloom
-import Driver.Ops.C18
 import Driver.Ops.Crc
 import Driver.Ops.Cursor
 import Driver.Ops.Delta
+import Driver.Ops.FileRead
 import Driver.Ops.FileSpec
 import Driver.Ops.FileWrite
 import Driver.Ops.Lz4
@@ -27,10 +27,10 @@ open Carquet.Util
 def handlers : List (Line → Option Verdict) :=
   [ Driver.Ops.Alloc.handle,
     Driver.Ops.Bloom.handle,
-    Driver.Ops.C18.handle,
     Driver.Ops.Crc.handle,
     Driver.Ops.Cursor.handle,
     Driver.Ops.Delta.handle,
+    Driver.Ops.FileRead.handle,
     Driver.Ops.FileSpec.handle,
     Driver.Ops.FileWrite.handle,
     Driver.Ops.Lz4.handle,
